@@ -70,7 +70,16 @@ def run(ctx, progs):
     ctx.assumptions.append("core's RangeBounds impls for RangeTo/RangeFull/RangeFrom behave as documented")
     ctx.rule("DBGASSERT1", "thorough tier, debug build: every debug assertion is proved unreachable from the public entries, except the "
              "reviewed value-level ones (the crate's own stated beliefs)")
+    ctx.rule("FWD1", "the forwarding PartialEq impls end in the base slice impl and never recurse into themselves (through std's `&A == &B`): they terminate")
+    ctx.rule("TWIN", "the shared and the mutable form of each range/iterator helper are one algorithm: range() returns / panics exactly where range_mut() does")
     for cfg, prog in progs.items():
+        if cfg != "default_dbg":
+            from . import c08 as _c08i, c13 as _c13
+            from .. import shapes as _shapes
+
+            _c13.fwd1(ctx, prog, cfg)
+            for a_, b_ in _c08i.PAIRS:
+                _shapes.twin(ctx, "TWIN", prog, a_, b_, cfg, what="the shared and the mutable form of one view")
         if cfg == "default_dbg":
             dbgassert1(ctx, prog, cfg)
             # the arithmetic inside debug assertions is code too in this build
@@ -297,6 +306,14 @@ def pan4(ctx, prog, cfg):
         guards_ = sorted(set(guards_))
         rets = set(f.return_blocks())
         ok = len(guards_) >= want and all(f.must_pass(None, [g], rets) for g in guards_)
+        if not ok and short == "translate_range_bounds":
+            # the same contract read off the facts at the return, however the checks are spelled (`assert!`, `if .. { panic!() }`):
+            # a normal return entails start <= end <= len
+            ens = set((a[1], a[2], a[3]) for a in guards.ensures(f) if a[0] == "le")
+            size0 = ("load", ("param", 1), ("size",), ("entry", ("M", "size")))
+            if (("ret", "0"), ("ret", "1"), 0) in ens and any(x == ("ret", "1") and y == size0 and w <= 0 for (x, y, w) in ens):
+                ok = True
+                guards_ = ["postcondition ret.0 <= ret.1 <= len"]
         ctx.check(ok, "PAN4", short, "assertions on every return path", f.loc,
                   "`%s` can return normally without evaluating all of its %d documented assertions (decision blocks %s): some "
                   "arguments for which a panic is documented are silently accepted" % (short, want, guards_),
